@@ -130,6 +130,8 @@ type Ctx struct {
 	sigCount map[string]int
 	curCase  string
 	logf     *os.File
+	trial    bool
+	trialVs  []Violation
 }
 
 const maxViolationsKept = 8 // per signature
@@ -258,9 +260,15 @@ func (c *Ctx) Inconclusive(reason string) {
 }
 
 // Violation records a refutation with its witness.
-func (c *Ctx) Violation(sig string, detail interface{}) {
+func (c *Ctx) Violation(sig string, detail interface{}) { c.violation(sig, detail, false) }
+
+func (c *Ctx) violation(sig string, detail interface{}, now bool) {
 	c.mu.Lock()
 	defer c.mu.Unlock()
+	if c.trial && !now {
+		c.trialVs = append(c.trialVs, Violation{Sig: sig, Case: c.curCase, Detail: detail})
+		return
+	}
 	c.res.NViolations++
 	c.sigCount[sig]++
 	if c.sigCount[sig] <= maxViolationsKept {
@@ -269,6 +277,63 @@ func (c *Ctx) Violation(sig string, detail interface{}) {
 	if c.Verbose {
 		b, _ := json.MarshalIndent(detail, "", " ")
 		fmt.Fprintf(os.Stderr, "VIOLATION sig=%s %s\n%s\n", sig, c.curCase, b)
+	}
+}
+
+// Replayed is for deterministic, single-goroutine cases whose only source of
+// nondeterminism is the network between the code under test and the harness's
+// UDP sink (loopback datagrams can be reordered between CPUs or be lost without
+// the socket's drop counter moving). f is run with a copy of r; if it records
+// violations it is run again, twice, from the same generator state, and only
+// signatures that all three executions produce are recorded (with the first
+// execution's witness). A real defect on such a path reproduces every time; an
+// anomaly that does not is counted and reported in the evidence instead.
+func (c *Ctx) Replayed(r *Rand, f func(r *Rand)) {
+	start := *r
+	var first []Violation
+	common := map[string]bool{}
+	for try := 0; try < 3; try++ {
+		rr := start
+		c.mu.Lock()
+		c.trial, c.trialVs = true, nil
+		c.mu.Unlock()
+		f(&rr)
+		c.mu.Lock()
+		vs := c.trialVs
+		c.trial, c.trialVs = false, nil
+		c.mu.Unlock()
+		if try == 0 {
+			*r = rr
+			if len(vs) == 0 {
+				return
+			}
+			first = vs
+			for _, v := range vs {
+				common[v.Sig] = true
+			}
+			continue
+		}
+		now := map[string]bool{}
+		for _, v := range vs {
+			now[v.Sig] = true
+		}
+		for sig := range common {
+			if !now[sig] {
+				delete(common, sig)
+			}
+		}
+		if len(common) == 0 {
+			break
+		}
+	}
+	dropped := map[string]bool{}
+	for _, v := range first {
+		if common[v.Sig] {
+			c.Violation(v.Sig, v.Detail)
+		} else if !dropped[v.Sig] {
+			dropped[v.Sig] = true
+			c.Class("anomaly-not-reproduced-on-replay/"+v.Sig, 1)
+		}
 	}
 }
 
@@ -362,7 +427,7 @@ func (c *Ctx) Watchdog(d time.Duration, sig string, desc interface{}) (stop func
 		case <-time.After(d):
 			buf := make([]byte, 1<<20)
 			n := runtime.Stack(buf, true)
-			c.Violation(sig, map[string]interface{}{"why": fmt.Sprintf("no progress: the guarded section has not finished after %v (normally far below a second); goroutine dump attached", d), "case": desc, "goroutines": trimDump(string(buf[:n]))})
+			c.violation(sig, map[string]interface{}{"why": fmt.Sprintf("no progress: the guarded section has not finished after %v (normally far below a second); goroutine dump attached", d), "case": desc, "goroutines": trimDump(string(buf[:n]))}, true)
 			c.Finish()
 			os.Exit(1)
 		}
